@@ -2,6 +2,12 @@
 
 package auth
 
+import (
+	"crypto/rsa"
+
+	"github.com/Tnze/go-mc/net"
+)
+
 // exported views of unexported functions for the C18 correspondence harness (never written to /repo)
 
 func VerifC18AuthDigest(serverID string, sharedSecret, publicKey []byte) string {
@@ -9,3 +15,8 @@ func VerifC18AuthDigest(serverID string, sharedSecret, publicKey []byte) string 
 }
 
 func VerifC18TwosComplement(p []byte) []byte { return twosComplement(p) }
+
+// phase 4: the server side of the encryption handshake
+func VerifC18EncryptionResponse(conn *net.Conn, serverKey *rsa.PrivateKey, verifyToken []byte) ([]byte, error) {
+	return encryptionResponse(conn, serverKey, verifyToken)
+}
